@@ -9,6 +9,7 @@
 //     y: class labels (csvm*), real targets as hex doubles (epssvr), ignored (oneclass); weights only for csvmw
 //     warm 1: train once with accuracy 0.1, then again (same model object => warm start) with eps
 //     warm 2: as 1, but the first training uses 4*C-, 4*C+ (the old coefficients leave the new box: the clipping matters)
+//     warm 3: as 1, but the first training already uses eps: restart from the (eps-)optimal solution with unchanged C
 //     Cneg == Cpos: the one-regulariser constructor is used, otherwise the two-regulariser one
 // output:
 //   Q id k dims lin_0.. lo_0.. hi_0.. alpha0_0..     the problem as QpSolver::solve receives it (k-th solve of the case)
@@ -154,14 +155,14 @@ void runCsvm(Cfg const& c, AbstractKernelFunction<RealVector>* k) {
 		for (auto it = wd.weights().elements().begin(); it != wd.weights().elements().end(); ++it, ++i) *it = c.w[i];
 		if (c.warm) {
 			if (c.warm == 2) t.setRegularizationParameters(4.0 * reg);
-			configure(t, c, 0.1); t.train(svm, wd); between(c, svm.decisionFunction());
+			configure(t, c, c.warm == 3 ? c.eps : 0.1); t.train(svm, wd); between(c, svm.decisionFunction());
 			if (c.warm == 2) t.setRegularizationParameters(reg);
 		}
 		configure(t, c, c.eps); t.train(svm, wd);
 	} else {
 		if (c.warm) {
 			if (c.warm == 2) t.setRegularizationParameters(4.0 * reg);
-			configure(t, c, 0.1); t.train(svm, data); between(c, svm.decisionFunction());
+			configure(t, c, c.warm == 3 ? c.eps : 0.1); t.train(svm, data); between(c, svm.decisionFunction());
 			if (c.warm == 2) t.setRegularizationParameters(reg);
 		}
 		configure(t, c, c.eps); t.train(svm, data);
